@@ -84,6 +84,12 @@ def run_recv(seed, stream, cfg, res=None, peer_extra=None, side=None, policy=Non
         peer_cfg.update(peer_extra)
     if cfg.get("send_eagain"):
         sock["send_eagain"] = [int(x) for x in cfg["send_eagain"]]
+    if cfg.get("write_fail"):
+        # from the end of the handshake on every write of the client fails (the server has stopped reading / has reset its
+        # receiving side) while what it sent before is still there to be read: automatic replies are lost, deliveries are not
+        if cfg["write_fail"] not in ("EPIPE", "ECONNRESET"):
+            raise InvalidScenario("write_fail")
+        sock["send_fail"] = {"after_bytes": 0, "errno": cfg["write_fail"]}
     w, peers = std_world(seed=seed, peer_cfg=peer_cfg, link=link, sock=sock, policy=policy, choices=choices,
                          step_cap=int(cfg.get("step_cap", 400_000)))
     prior = cfg.get("prior")
@@ -209,7 +215,7 @@ def run_recv(seed, stream, cfg, res=None, peer_extra=None, side=None, policy=Non
             "maxbuf": w.net.max_bufsize, "world": w,
             "consumed": w.net.sockets[-1].consumed if w.net.sockets else 0,
             "delivered": w.net.conns[-1].link.delivered if w.net.conns else 0,
-            "peer": peer, "connected_ok": ok,
+            "peer": peer, "connected_ok": ok, "write_fail": cfg.get("write_fail"),
         }
     if res is not None:
         res.absorb(w)
@@ -366,7 +372,11 @@ def check_model(res, out, frames, api, fire_cont, skip_utf8, end, ctx, clause_pr
     why = obs_matches(out["obs"], exp, complete, fire_cont)
     if why:
         res.violate(clause_prefix + _clause_for(out["obs"], exp), ctx, why)
-    if complete and api != "recv_frame":
+    if out.get("write_fail"):
+        res.probes["client_writes_fail"] = 1
+        if out["wrote"]:
+            res.violate(clause_prefix + "replies_differ_from_model", ctx, "harness: bytes were written although every write fails")
+    elif complete and api != "recv_frame":
         why = writes_match(out["wrote"], writes)
         if why:
             res.violate(clause_prefix + "replies_differ_from_model", ctx, why)
